@@ -285,6 +285,11 @@ def documents(draw):
     if draw(st.integers(0, 4)) == 0:
         from vlib import build as B_
         text = B_.cdataize(text)           # escaped text written as CDATA sections
+    if draw(st.integers(0, 5)) == 0 and '>' in text:
+        # a comment / processing instruction inside the root element
+        k_ = text.index('>', text.index('<mos')) + 1 if '<mos' in text else None
+        if k_:
+            text = text[:k_] + draw(st.sampled_from(['<!-- exported by NCS -->', '<?ncs hint?>'])) + text[k_:]
     s3key = draw(st.sampled_from(['k/d.mos.xml'] * 3 + S3_KEYS))
     return {'doc': decl + text, 'decl': bool(decl), 'enc': enc, 's3key': s3key, 'str_decl': draw(st.booleans()),
             'bucket': draw(st.sampled_from(['b', 'b', 'sport-mos-archive', '3sixty-mos', 's3', 'B.ucket_1']))}
